@@ -404,7 +404,9 @@ hs_xstr = And([
     Suppress(Literal('(')),
     hs_str,
     Suppress(Literal(')'))
-]).setParseAction(lambda toks: [XStr(toks[0], toks[1])])
+]).setParseAction(lambda toks: [
+    # Haystack 3.0 spells a Bin as Bin("mime")
+    Bin(toks[1]) if toks[0] == 'Bin' else XStr(toks[0], toks[1])])
 
 # Booleans
 hs_bool = Word('TF', min=1, max=1, exact=1).setParseAction( \
